@@ -1310,7 +1310,7 @@ def plan(mode, tier):
   if mode == "c08":
     if tier == "thorough":
       return {"runs": 6000000, "budget_s": 1200, "chunk": 4000}
-    return {"runs": 90000, "budget_s": 45, "chunk": 1500}
+    return {"runs": 102000, "budget_s": 75, "chunk": 1500}
   if tier == "thorough":
     return {"runs": 400000, "budget_s": 900, "chunk": 150}
   return {"runs": 8000, "budget_s": 45, "chunk": 125}
